@@ -78,6 +78,14 @@ func (r *Registry) AddSecret(owner string, x []byte, alias []byte) *Secret {
 	return s
 }
 
+// SetPub makes the secret known under another public value (a value that is congruent to g^x but not
+// reduced, say): what its owner chooses to announce.
+func (r *Registry) SetPub(s *Secret, pub *big.Int) {
+	delete(r.byPub, string(s.Pub.Bytes()))
+	s.Pub = pub
+	r.byPub[string(pub.Bytes())] = s
+}
+
 func (r *Registry) LastSecretOf(owner string) *Secret {
 	for i := len(r.Secrets) - 1; i >= 0; i-- {
 		if r.Secrets[i].Owner == owner {
